@@ -101,4 +101,15 @@ theorem update_handle (m n : Node) (now : Nat) (h : m.handle = n.handle) : (m.up
   unfold Node.update
   split <;> simp_all
 
+theorem commonPrefix_self (l : List Bool) : commonPrefix l l = l.length := by
+  induction l with
+  | nil => rfl
+  | cons a l ih => simp [commonPrefix, ih]
+
+theorem idBits_length (id : Bytes) : (idBits id).length = 8 * id.length := by
+  induction id with
+  | nil => rfl
+  | cons b bs ih => simp [idBits, List.flatMap_cons, byteBits] at ih ⊢; omega
+
+
 end Btdht
